@@ -13,7 +13,8 @@
 //   relaxation: spai0 everywhere (set up per level from the level matrix, no schedule of its own).
 //
 // case:  <id> <op> <coarse_enough> <direct_coarse> <max_levels> <npre> <npost> <ncycle> <pre_cycles>
-//                  <eps_strong> <relax|-> <over_interp|-> <do_trunc|-> <eps_trunc|->  A  f  x0
+//                  <eps_strong> <[g]relax|[g]-> <over_interp|-> <do_trunc|-> <eps_trunc|->  A  f  x0
+//        (g: smoothed aggregation with estimate_spectral_radius, Gershgorin bound)
 //        (A: crs, or bcrs with 4 rationals per entry for htb.*; f, x0: vec of n resp. 2n rationals)
 // out:   nt=<omp_get_max_threads()> D <nlevels> (M {A} {P} {R} | L {A} | S {A}|-)* ; [apply] ; [cycle]
 //
@@ -58,7 +59,11 @@ template <class B> static void set_cprm(typename amgcl::coarsening::aggregation<
 }
 template <class B> static void set_cprm(typename amgcl::coarsening::smoothed_aggregation<B>::params &p, const Cfg &c) {
     p.aggr.eps_strong = f32(c.eps_strong);
-    if (c.relax != "-") p.relax = f32(c.relax);
+    // relax token: [g]<value|->   g: estimate_spectral_radius = true with power_iters = 0 (Gershgorin bound: a max-reduction
+    // over the threads; the power method starts from thread-seeded random vectors and is excluded by the property)
+    std::string rl = c.relax;
+    if (!rl.empty() && rl[0] == 'g') { p.estimate_spectral_radius = true; p.power_iters = 0; rl = rl.substr(1); }
+    if (rl != "-") p.relax = f32(rl);
 }
 template <class B> static void set_cprm(typename amgcl::coarsening::smoothed_aggr_emin<B>::params &p, const Cfg &c) {
     p.aggr.eps_strong = f32(c.eps_strong);
